@@ -6,7 +6,7 @@ CHECK = {
         "details the documentation does not fix (list/scan fallback consultation order, merging of parameter constraints and pagination limits across stanzas, parameter constraints on delete/list/scan, max_wrapping_ttl without wrapping) are not asserted against the reference, only against order independence / monotonicity",
     ],
     "units": [
-        unit("acl", "policy", ["policy/c03_ref_test.go", "policy/c03_prop_test.go"], "^TestVerif_C03_",
+        unit("acl", "policy", ["policy/c03_ref_test.go", "policy/c03_prop_test.go", "policy/c03_scratch_test.go"], "^TestVerif_C03_",
              quick={"checks": 20000, "shards": 1, "cap": 600},
              thorough={"checks": 200000, "shards": 16, "cap": 2400},
              fuzz=[dict(name="FuzzVerif_C03_ACL", seconds=240)]),
